@@ -47,6 +47,12 @@ theorem isolation {V L O : Type} (sys : Sys String V L) (low : L → O)
     exact hW t g l x (by simpa using hx)
   exact isolation_mod sys (· ∈ globals) low hW' hC s sched
 
+/-- non-vacuity of `isolation`: the hypotheses are satisfiable with a shared global that changes -/
+example (s : State String Nat (Nat × Nat)) (sched : List Nat) (t : Nat) :
+    ((run counterSys s sched).locals t).1
+      = (alone counterSys t (sched.count t) s.shared (s.locals t)).2.1 :=
+  (isolation counterSys (·.1) [] ["total"] counterSys_writes rfl counterSys_confined s sched).2 t
+
 /-- `isolation` for the captured-write list extracted from the source under test. -/
 theorem isolation_extracted {V L O : Type} (sys : Sys String V L) (low : L → O) (globals : List String)
     (hW : WritesWithin sys (· ∈ Ecal.Gen.C11.capturedWrites ++ globals))
@@ -79,12 +85,7 @@ theorem globals_schedule_independent {V L O : Type} (sys : Sys String V L) (low 
     ∀ t, low ((run sys s sched).locals t) = low ((run sys s sched').locals t) :=
   perm_lowEq sys (· ∈ globals) low upd hW hC hU hcomm hp s
 
-/-- non-vacuity: invocations that each add their own event id to a lock-protected global
-    counter `total` and remember the value they saw (the remembered value is the part that
-    is *not* isolated; the private part is the event id) -/
-def counterSys : Sys String Nat (Nat × Nat) :=
-  ⟨fun _ g l => (fun x => if x = "total" then g x + l.1 else g x, (l.1, g "total"))⟩
-
+/-- non-vacuity (`counterSys`, defined above) -/
 example (s : State String Nat (Nat × Nat)) (sched sched' : List Nat) (hp : sched.Perm sched') :
     (run counterSys s sched).shared = (run counterSys s sched').shared :=
   (globals_schedule_independent counterSys (·.1) ["total"]
@@ -98,39 +99,6 @@ example (s : State String Nat (Nat × Nat)) (sched sched' : List Nat) (hp : sche
     s sched sched' hp).1
 
 /-! ### The action closure of `sinkRuntime.Eval` (`Ecal.Conc.sinkSys`) -/
-
-/-- a fresh invocation for event `ev` -/
-def fresh (ev : Nat) : SLoc := { event := ev }
-
-theorem alone_done (captured : List String) (outcome : Nat → Option Nat) (t n : Nat)
-    (g : String → Option Nat) (l : SLoc) (h : l.pc ≥ 3) :
-    alone (sinkSys captured outcome) t n g l = (g, l) := by
-  induction n with
-  | zero => rfl
-  | succ n ih =>
-    have h0 : ¬ l.pc = 0 := by omega
-    have h1 : ¬ l.pc = 1 := by omega
-    have h2 : ¬ l.pc = 2 := by omega
-    simp only [alone, sinkSys, sinkStep, h0, h1, h2, if_false]
-    exact ih
-
-theorem alone_fresh (outcome : Nat → Option Nat) (t n ev : Nat) (g : String → Option Nat) :
-    (alone (sinkSys [] outcome) t (n + 3) g (fresh ev)).2
-      = { event := ev, pc := 3, echo := some ev, err := outcome ev, ret := some (outcome ev) } := by
-  have : alone (sinkSys [] outcome) t (n + 3) g (fresh ev)
-      = alone (sinkSys [] outcome) t n g
-          { event := ev, pc := 3, echo := some ev, err := outcome ev, ret := some (outcome ev) } := by
-    simp [alone, sinkSys, sinkStep, fresh]
-  rw [this, alone_done _ _ _ _ _ _ (by simp)]
-
-theorem alone_never_wrong (outcome : Nat → Option Nat) (t n ev : Nat) (g : String → Option Nat) :
-    let l := (alone (sinkSys [] outcome) t n g (fresh ev)).2
-    l.event = ev ∧ (l.ret = none ∨ l.ret = some (outcome ev)) ∧ (l.echo = none ∨ l.echo = some ev) := by
-  match n with
-  | 0 => simp [alone, fresh]
-  | 1 => simp [alone, sinkSys, sinkStep, fresh]
-  | 2 => simp [alone, sinkSys, sinkStep, fresh]
-  | n + 3 => rw [alone_fresh]; simp
 
 /-- **errors_attributed.** With the closure as it is (no captured assignment), for every
     number of overlapping invocations (`events t` = the event of invocation `t`), every
